@@ -977,6 +977,80 @@ func infeasibleMaskedSwitch(pa Path) bool {
 	return false
 }
 
+// returnsInputBytes: every value f returns is a byte slice that holds only bytes read from the
+// input — the contents of a local bytes.Buffer filled exclusively by io.CopyN/io.Copy, or a fresh
+// slice handed to io.ReadFull — so its length never exceeds the number of bytes consumed.
+func returnsInputBytes(f *ssa.Function) bool {
+	if f.Blocks == nil || f.Signature.Results().Len() != 1 || !isByteSlice(f.Signature.Results().At(0).Type()) {
+		return false
+	}
+	ok, n := true, 0
+	eachInstr(f, func(b *ssa.BasicBlock, i int, in ssa.Instruction) {
+		ret, isRet := in.(*ssa.Return)
+		if !isRet {
+			return
+		}
+		n++
+		switch x := ret.Results[0].(type) {
+		case *ssa.Call:
+			if !isCallTo(&x.Call, "(*bytes.Buffer).Bytes") || len(x.Call.Args) != 1 {
+				ok = false
+				return
+			}
+			al, isAl := x.Call.Args[0].(*ssa.Alloc)
+			if !isAl {
+				ok = false
+				return
+			}
+			filled := false
+			for _, ref := range referrersOf(al) {
+				switch y := ref.(type) {
+				case *ssa.Call:
+					if !(isCallTo(&y.Call, "(*bytes.Buffer).Bytes") || isCallTo(&y.Call, "(*bytes.Buffer).Len") || isCallTo(&y.Call, "(*bytes.Buffer).Grow")) {
+						ok = false
+					}
+				case *ssa.MakeInterface:
+					for _, r2 := range referrersOf(y) {
+						c, isC := r2.(*ssa.Call)
+						if isC && (isCallTo(&c.Call, "io.CopyN") || isCallTo(&c.Call, "io.Copy")) && c.Call.Args[0] == ssa.Value(y) {
+							filled = true
+						} else {
+							ok = false
+						}
+					}
+				case *ssa.DebugRef:
+				default:
+					ok = false
+				}
+			}
+			if !filled {
+				ok = false
+			}
+		case *ssa.MakeSlice:
+			filled := false
+			for _, ref := range referrersOf(x) {
+				switch y := ref.(type) {
+				case *ssa.Call:
+					if isCallTo(&y.Call, "io.ReadFull") && len(y.Call.Args) == 2 && y.Call.Args[1] == ssa.Value(x) {
+						filled = true
+					} else if bn := builtinName(&y.Call); bn != "len" && bn != "cap" {
+						ok = false
+					}
+				case *ssa.Return, *ssa.DebugRef:
+				default:
+					ok = false
+				}
+			}
+			if !filled {
+				ok = false
+			}
+		default:
+			ok = false
+		}
+	})
+	return ok && n > 0
+}
+
 func ruleDecoderTermination(r *Run, p *Prog, a *a23) {
 	ci := &consumeInfo{a: a, inPkg: map[*ssa.Function]bool{}, memo: map[*ssa.Function]int{}}
 	for _, f := range a.fns {
@@ -1029,6 +1103,15 @@ func ruleDecoderTermination(r *Run, p *Prog, a *a23) {
 					continue
 				}
 				for _, bound := range []ssa.Value{bo.X, bo.Y} {
+					// `for … range pbs` with pbs the bytes a helper has read from the input: one
+					// iteration per byte already consumed
+					if lc, ok := bound.(*ssa.Call); ok && builtinName(&lc.Call) == "len" && len(lc.Call.Args) == 1 {
+						if rc, ok := lc.Call.Args[0].(*ssa.Call); ok {
+							if sc := staticCallee(&rc.Call); sc != nil && ci.inPkg[sc] && returnsInputBytes(sc) && rc.Block().Dominates(h) && rc.Block() != h {
+								covered = true
+							}
+						}
+					}
 					if !a.taint[bound] {
 						continue
 					}
